@@ -103,6 +103,14 @@ def evaluate(case):
             if got != table:
                 fail = Fail("table_in_force_differs_from_table_set", set=_short(table), read_back=_short(got))
                 break
+        if fail is None and k < len(case.get("rejected_update", [])) and case["rejected_update"][k]:
+            # an update that is rejected (the caller catches the ValueError and carries on) must leave the table in force alone
+            bad = {key: (v + 2 + k) % 7 for key, v in table.items()}
+            bad[["Qq", "C+", "", "c"][case["rejected_update"][k] % 4]] = 1
+            rb = call(sf.set_semantic_constraints, bad, expected=(ValueError,))
+            if rb[0] == "ok":
+                return Result(skipped="candidate-invalid table accepted (C12's business)")
+            classes.add("rejected_update_before_the_check")
         worst = None
         at_edge = False
         for el, q, u in us:
@@ -183,7 +191,8 @@ def gen_case(ch):
             if ch.bool(65):
                 t[key] = max(0, u + ch.pick([-1, 0, 0, 1]))
         steps.append(t)
-    return dict(smiles=w["smiles"], truth=truth, steps=steps, mutate_passed=[ch.weighted([(6, 0), (1, 1), (1, 2)]) for _ in steps])
+    return dict(smiles=w["smiles"], truth=truth, steps=steps, mutate_passed=[ch.weighted([(6, 0), (1, 1), (1, 2)]) for _ in steps],
+                rejected_update=[(ch.int(1, 4) if ch.bool(12) else 0) for _ in steps])
 
 
 EXOTIC = ["c1cccc:[GeH]:1", "c1cc:[GeH]:[GeH]:c1", "c1ccc:[SnH2]:1", "C:[Ge]:C", "[SbH]1:c:c:c:c:1", "c1cc[bi]c1", "[GeH]1:C:C:C:C:1",
